@@ -267,7 +267,7 @@ func run(cfg lib.Cfg) error {
 	}
 	nre := 10
 	if cfg.Thorough() {
-		nre = 300
+		nre = 200
 	}
 	for i := 0; i < nre; i++ {
 		twoRefs := r.Intn(3) == 0
@@ -326,7 +326,7 @@ func run(cfg lib.Cfg) error {
 	reorgMode = false
 	n := 34
 	if cfg.Thorough() {
-		n = 700
+		n = 500
 	}
 	for i := 0; i < n; i++ {
 		twoRefs, twoDeps := r.Intn(2) == 0, r.Intn(3) == 0
